@@ -100,8 +100,9 @@ class LayerDefModel:
         """Flat token sequence (layer names and identifiers) in definition order."""
         out = []
         for n, ids in self.listing():
-            out.append(n)
-            out.extend(ids)
+            if n:  # a layer called "" leaves no token in the text
+                out.append(n)
+            out.extend(i for i in ids if i)
         return out
 
 
